@@ -32,6 +32,8 @@ def shards(tier, seed):
     cfgs = []
     for d in (1, 2):
         cfgs += [spaces.cfg_sig(s, basis=b) for b in spaces.all_bases(d) for s in spaces.sig(d)]
+    for d in (1, 2):
+        cfgs += [spaces.cfg_sig(s, basis=b) for st in (0, 2) for b in spaces.all_bases(d, start=st) for s in spaces.sig(d)]
     s3 = [[1, 1, 1], [0, 1, 1], [1, -1, 0], [-1, -1, 1], [0, 0, 1]]
     cfgs += [spaces.cfg_sig(s, basis=b) for b in spaces.bases_by_deviation(3, 1)[1:] for s in s3]
     cfgs += [spaces.cfg_sig(s, start_index=st) for d in (1, 2, 3) for s in spaces.sig(d)[::2] for st in (0, 1, 2)]
